@@ -21,8 +21,8 @@ package server
 // therefore only use the c12_* operations, which give the processor away with
 // runtime.Gosched (GOMAXPROCS is 1) until every command issued through
 // c12_issue is parked at a yield or has returned — or, when one of them can do
-// neither because it waits for the mutex, until a bound in real time has
-// passed.  Commands issued in that window must not need the virtual clock to
+// neither because it waits for the mutex (or for the virtual clock), until a
+// stop-the-world goroutine dump shows every goroutine of the bubble blocked.  Commands issued in that window must not need the virtual clock to
 // reach their snapshot (targets answering their first probe; no requests in
 // flight).
 
@@ -32,6 +32,7 @@ import (
 	"path/filepath"
 	"runtime"
 	"sort"
+	"strconv"
 	"strings"
 	"syscall"
 	"testing/synctest"
@@ -102,23 +103,73 @@ func (c *c12Sim) accounted(s *vSim) bool {
 	return true
 }
 
-// settle: see the file comment.  Returns true when every command is parked
-// or has returned, false when the bound was reached.
+// c12Quiet reports whether every goroutine of the bubble other than the caller
+// is waiting for something (a channel, a timer, a mutex, ...): none is running,
+// runnable or inside a system call, so nothing moves until the caller acts.
+// runtime.Stack(all) stops the world: the answer is a consistent cut.
+func c12Quiet() bool {
+	buf := make([]byte, 1<<20)
+	n := runtime.Stack(buf, true)
+	self := vGoid()
+	for _, blk := range strings.Split(string(buf[:n]), "\n\n") {
+		hdr, _, _ := strings.Cut(blk, "\n")
+		if !strings.HasPrefix(hdr, "goroutine ") || !strings.Contains(hdr, "synctest") {
+			continue
+		}
+		f := strings.Fields(hdr)
+		if id, _ := strconv.ParseInt(f[1], 10, 64); id == self {
+			continue
+		}
+		open := strings.Index(hdr, "[")
+		if open < 0 {
+			return false
+		}
+		st := hdr[open+1:]
+		if i := strings.IndexAny(st, ",]"); i >= 0 {
+			st = st[:i]
+		}
+		waiting := false
+		for _, w := range []string{"chan ", "select", "sleep", "Mutex", "semacquire", "sync.", "IO wait"} {
+			if strings.Contains(st, w) {
+				waiting = true
+			}
+		}
+		if !waiting {
+			return false
+		}
+	}
+	return true
+}
+
+// settle: see the file comment.  Returns true when every command is parked at a
+// yield or has returned, or when every goroutine of the bubble is blocked (a
+// command waits for the snapshot mutex or for the virtual clock); false when
+// neither was reached within the bound (an anomaly the driver reports).
 func (c *c12Sim) settle(s *vSim) bool {
 	start := c12RealNow()
-	calm := 0
-	for i := 0; ; i++ {
+	calm, quiet := 0, 0
+	for i := 1; ; i++ {
 		runtime.Gosched()
 		if c.accounted(s) {
 			calm++
 			if calm >= 64 {
 				return true
 			}
-		} else {
-			calm = 0
+			continue
 		}
-		if i >= 20000 && c12RealNow()-start > 20_000 {
-			return false
+		calm = 0
+		if i%256 == 0 {
+			if c12Quiet() {
+				quiet++
+				if quiet >= 2 {
+					return true
+				}
+			} else {
+				quiet = 0
+			}
+			if c12RealNow()-start > 5_000_000 {
+				return false
+			}
 		}
 	}
 }
